@@ -230,6 +230,7 @@ def generate():
     w("  " + ";\n  ".join(env))
     w("].")
     coq_rules = []
+    rules_json = []
     probe_rules = []   # (index in coq_rules, rust src type fmt, rust tgt type fmt) for rules without compositional parameters
     meta = []
     base_by_family = {}
@@ -240,6 +241,7 @@ def generate():
                                                          "; ".join(map(str, opq)), coq_ty(cx, src, params), coq_ty(cx, tgt, params)))
         meta.append({"name": name, "family": family, "nparams": len(params), "opaquable": opq,
                      "bounds": {p: res[p] for p in params}, "rust": rust})
+        rules_json.append({"params": params, "src": src, "tgt": tgt})
         return len(coq_rules) - 1
 
     for r in rules:
@@ -310,7 +312,8 @@ def generate():
     new = "\n".join(lines) + "\n"
     if not os.path.exists(out) or open(out).read() != new:
         open(out, "w").write(new)
-    return {"meta": meta, "n_adts": len(env), "n_rules": len(coq_rules), "n_known_cells": len(kc), "expansion": exp_path}
+    return {"meta": meta, "n_adts": len(env), "n_rules": len(coq_rules), "n_known_cells": len(kc), "expansion": exp_path,
+            "_cx": cx, "_rules_json": rules_json, "known_families": {k: sorted(v) for k, v in known.items()}}
 
 
 def cb(p):
@@ -372,5 +375,84 @@ def load_known():
     return out
 
 
+
+
+
+# ------------------------------------------------------------------------------------------- rustc probe
+DEREF_FAMILIES = {"ref", "mutref", "cbox", "carcsome"}
+OTHER_PARAM_TYPES = {"C": "NoContext", "CGlueCtx": "NoContext", "R": "()"}
+
+
+def rust_ty(cx, t, sub):
+    """JSON type tree -> Rust type text with 'static lifetimes re-inserted; sub: parameter name -> Rust type text"""
+    if t is None:
+        return "()"
+    k = t["k"]
+    if k == "ref":
+        return "&'static " + ("mut " if t["mut"] else "") + rust_ty(cx, t["elem"], sub)
+    if k == "path":
+        name = t["name"]
+        if name in sub and len(t["path"]) == 1:
+            return sub[name]
+        args = [rust_ty(cx, a, sub) for a in t["args"] if a.get("k") != "other"]
+        nlt = 0
+        if name in cx.adts:
+            nlt = cx.adts[name]["generics"].get("lifetimes", 0)
+        elif name in cx.aliases:
+            nlt = cx.aliases[name]["generics"].get("lifetimes", 0)
+        allargs = ["'static"] * nlt + args
+        return name + ("<" + ", ".join(allargs) + ">" if allargs else "")
+    if k == "tuple" and not t["elems"]:
+        return "()"
+    return tstr(t)
+
+
+def write_probe(cx_rules_meta, out_dir):
+    """generate the probe crate; returns the list of probed rows [(rule index, payload class)] in print order"""
+    cx, rules_json, meta = cx_rules_meta
+    os.makedirs(os.path.join(out_dir, "src"), exist_ok=True)
+    open(os.path.join(out_dir, "Cargo.toml"), "w").write(
+        '[package]\nname = "c09probe"\nversion = "0.0.0"\nedition = "2018"\n\n[workspace]\n\n[dependencies]\ncglue = { path = "/repo/cglue" }\n')
+    defs = open(os.path.join(vlib.VERIF, "translators", "samples", "c09_defs.rs")).read()
+    src = ["#![allow(dead_code, unused_imports, non_camel_case_types)]",
+           "use cglue::prelude::v1::*;", "use cglue::*;", "use cglue::arc::*;", "use cglue::boxed::*;", "use cglue::forward::*;",
+           "use cglue::trait_group::*;", "use core::marker::PhantomData;", defs,
+           "pub struct NotSendButSync(std::sync::MutexGuard<'static, u32>);",
+           "macro_rules! payload { ($t:ty) => { impl Foo for $t { fn get(&self, x: u32) -> u32 { x } fn set(&mut self, v: &[u8]) -> usize { v.len() } } impl Bar for $t { fn bar(&self) -> u8 { 0 } } } }",
+           "payload!(u32); payload!(core::cell::Cell<u32>); payload!(NotSendButSync); payload!(std::rc::Rc<u32>);",
+           "struct P<T: ?Sized>(PhantomData<T>);",
+           "trait NoSend { const SEND: bool = false; } impl<T: ?Sized> NoSend for P<T> {}",
+           "trait NoSync { const SYNC: bool = false; } impl<T: ?Sized> NoSync for P<T> {}",
+           "trait NoOpq { const OPQ: bool = false; } impl<T: ?Sized> NoOpq for P<T> {}",
+           "impl<T: ?Sized + Send> P<T> { const SEND: bool = true; }",
+           "impl<T: ?Sized + Sync> P<T> { const SYNC: bool = true; }",
+           "impl<T: Opaquable> P<T> { const OPQ: bool = true; }",
+           "fn main() {"]
+    rows = []
+    for idx, (m, rj) in enumerate(zip(meta, rules_json)):
+        if rj is None or m["rust"] is None:
+            continue
+        if m["nparams"] >= 1 and m["family"] not in BASE_FAMILIES.values():
+            continue
+        needs_deref = any(x in m["name"] for x in ("trait object", "Grp"))
+        if needs_deref and m["family"] not in DEREF_FAMILIES:
+            continue
+        classes = list(PAYLOADS.items()) if m["nparams"] >= 1 else [((True, True), None)]
+        for pc, pty in classes:
+            sub = dict(OTHER_PARAM_TYPES)
+            if m["nparams"] >= 1:
+                sub[rj["params"][0]] = pty
+            s_ty = rust_ty(cx, rj["src"], sub)
+            t_ty = rust_ty(cx, rj["tgt"], sub)
+            src.append('    println!("%d %d %d {} {} {} {} {}", P::<%s>::OPQ as u8, P::<%s>::SEND as u8, P::<%s>::SYNC as u8, P::<%s>::SEND as u8, P::<%s>::SYNC as u8);'
+                       % (idx, pc[0], pc[1], s_ty, s_ty, s_ty, t_ty, t_ty))
+            rows.append({"rule": idx, "payload": pc, "src": s_ty, "tgt": t_ty})
+    src.append("}")
+    open(os.path.join(out_dir, "src", "main.rs"), "w").write("\n".join(src) + "\n")
+    return rows
+
+
 if __name__ == "__main__":
-    print(json.dumps(generate(), indent=1)[:3000])
+    g = generate()
+    rows = write_probe((g["_cx"], g["_rules_json"], g["meta"]), os.path.join(vlib.CACHE, "c09probe"))
+    print(len(rows), "probe rows;", g["n_rules"], "rules;", g["n_adts"], "adts;", g["n_known_cells"], "known cells")
